@@ -896,6 +896,9 @@ class Translator:
                 elif v[0] == "nllist" and ret[0] == "nlobj" and ret[1] == v[1]:
                     effects.append("Deleg %d" % v[1])
                     ret = ("unit",)
+                elif v[0] == "nllist" and ret == ("unit",):
+                    # the object executeMore may have returned is dropped: only what it put into the list counts
+                    effects.append("FillL (LEvalListOnly %d)" % v[1])
                 else:
                     effects.append(None)
         if ret[0] == "Sfn":
